@@ -51,6 +51,14 @@ def admits(I, facts, exact=None):
     for f in facts:
         s.add(f)
     r = s.check()
+    if r == z3.unsat:
+        # the in-process solver is not trusted with a refutation on its own (it has been seen to
+        # flip on quantified string facts): the query is repeated on the external solvers, and a
+        # validated `sat` from any of them means the model does admit the real behaviour
+        from .solve import solve_text
+        rr = solve_text('(set-logic ALL)\n' + s.to_smt2(), False, 10, 10, both=True)
+        if any(t[1] == 'sat' for t in rr.get('tried', [])):
+            return True, 'sat (external solver; in-process z3 answered unsat)'
     return r != z3.unsat, r
 
 
